@@ -421,6 +421,11 @@ impl Check {
         self.open_keys.clone()
     }
 
+    /// True when `--only <name>` selected exactly this sub-check.
+    pub fn selected(&self, name: &str) -> bool {
+        matches!(&self.only, Some(o) if o == name)
+    }
+
     fn skip(&self, name: &str) -> bool {
         matches!(&self.only, Some(o) if o != name)
     }
